@@ -224,9 +224,10 @@ static inline int fd_is_waitable(int fd) {
 }
 
 static inline int should_block(int fd) {
-  if (!thread_locked && fd_in_range(fd) &&
-      fd_info[fd].flags_ & (IO_FLAG_BLOCKING | IO_FLAG_WAITABLE)) {
-    return 1;
+  if (!thread_locked && fd_in_range(fd)) {
+    const uint8_t flags = fd_info[fd].flags_;
+    // the caller wants blocking semantics AND the descriptor can be waited on
+    return (flags & IO_FLAG_BLOCKING) && (flags & IO_FLAG_WAITABLE);
   }
   return 0;
 }
